@@ -112,7 +112,7 @@ fn main() {
             let params: serde_json::Value = serde_json::from_str(&std::fs::read_to_string(&args[3]).unwrap()).unwrap();
             let hist: serde_json::Value = serde_json::from_str(&args[4]).unwrap();
             let r = f(&params, &serde_json::json!({"hist": hist}));
-            println!("status={} findings={} reproduced={}\n{}\ncounters={}", r["status"], r["findings"], r["reproduced"], r["detail"].as_str().unwrap_or(""), r["counters"]);
+            println!("status={} findings={} reproduced={} stop={}\nkey={}\n{}\ncounters={}", r["status"], r["findings"], r["reproduced"], r["stop"], r["key"].as_str().unwrap_or(""), r["detail"].as_str().unwrap_or(""), r["counters"]);
             0
         }
         _ => {
